@@ -1091,7 +1091,11 @@ func (s *server) runRaw(h *hist) {
 	closed := false
 	if endErr == nil {
 		// all requests answered: the last one is a closing request by construction — expect EOF
-		_ = conn.SetReadDeadline(time.Now().Add(8 * time.Second))
+		closeWait := 8 * time.Second
+		if degraded {
+			closeWait = 3 * time.Second
+		}
+		_ = conn.SetReadDeadline(time.Now().Add(closeWait))
 		b, err := br.Peek(1)
 		switch {
 		case err == nil:
@@ -1364,7 +1368,7 @@ closeit:
 	if again(recs) {
 		time.Sleep(300 * time.Millisecond) // let the rest of the damage show (e.g. the response going to a stale callback)
 	}
-	cc.Close()
+	h.guarded("ClientConn.Close", cc.Close)
 	time.Sleep(2 * time.Millisecond) // a late second invocation would show up in the counters below
 	h.finishCallbacksAt(recs, true, h.dialFail)
 }
@@ -1519,7 +1523,7 @@ closeit:
 	if again(recs) {
 		time.Sleep(300 * time.Millisecond)
 	}
-	cl.Close()
+	h.guarded("Client.Close", cl.Close)
 	time.Sleep(2 * time.Millisecond)
 	h.finishCallbacksAt(recs, false, h.dialFail)
 }
@@ -1649,7 +1653,7 @@ func (s *server) runNbx(h *hist) {
 		}
 	}
 closeit:
-	cc.Close()
+	h.guarded("ClientConn.Close", cc.Close)
 	time.Sleep(2 * time.Millisecond)
 	// requests up to the failing one must have got an error, the later ones are a fresh pipelined history
 	for i := 0; i <= h.failAt && i < n; i++ {
@@ -1666,6 +1670,12 @@ closeit:
 }
 
 // ---------------------------------------------------------------- executor
+
+// degraded: set once a case of this process has reported an oracle failure
+var degraded bool
+
+// maxAttempts: re-runs of a case whose only failures are of the timing kind
+var maxAttempts = 2
 
 type caseT struct {
 	lines []string // original op lines of the case, in order
@@ -1725,14 +1735,15 @@ func parseCase(lines []string) (*caseT, error) {
 	return c, nil
 }
 
-func (c *caseT) reset() {
-	for _, h := range c.order {
-		h.res = map[int]*result{}
-		for _, r := range h.reqs {
-			h.res[r.rid] = &result{cb: -1}
-		}
-		h.fails, h.soft, h.got, h.cut = nil, false, 0, -1
+// freshHist: a copy of the static part of h with empty results — every attempt runs on its own copy, so a client
+// call that never returns (and the goroutine stuck in it) cannot touch what a later attempt or the printer reads
+func freshHist(h *hist, cliEpoll string) *hist {
+	cl := &hist{cid: h.cid, kind: h.kind, slow: h.slow, seg: h.seg, to0: h.to0, dialFail: h.dialFail, dialKind: h.dialKind,
+		failAt: h.failAt, reqs: h.reqs, res: map[int]*result{}, cut: -1, cliEpoll: cliEpoll}
+	for _, r := range h.reqs {
+		cl.res[r.rid] = &result{cb: -1}
 	}
+	return cl
 }
 
 func (c *caseT) runOnce() error {
@@ -1740,16 +1751,21 @@ func (c *caseT) runOnce() error {
 	if err != nil {
 		return err
 	}
-	c.reset()
-	var wg sync.WaitGroup
+	type run struct {
+		h, clone *hist
+		done     chan struct{}
+	}
+	var runs []*run
 	for _, h := range c.order {
+		cl := freshHist(h, c.cell.epoll)
 		if len(h.reqs) == 0 {
+			*h = *cl
 			continue
 		}
-		wg.Add(1)
-		h.cliEpoll = c.cell.epoll
-		go func(h *hist) {
-			defer wg.Done()
+		r := &run{h: h, clone: cl, done: make(chan struct{})}
+		runs = append(runs, r)
+		go func(h *hist, done chan struct{}) {
+			defer close(done)
 			defer func() {
 				if e := recover(); e != nil {
 					h.fail(false, "c10-order", "harness client panicked: %v", e)
@@ -1767,10 +1783,43 @@ func (c *caseT) runOnce() error {
 			case "nbx":
 				s.runNbx(h)
 			}
-		}(h)
+		}(cl, r.done)
 	}
-	wg.Wait()
+	// watchdog: every client step has its own time-out, so a history that is still running after several of them
+	// sits in a call of the code under test that does not return
+	budget := 6 * ioTimeout
+	timer := time.NewTimer(budget)
+	defer timer.Stop()
+	expired := false
+	for _, r := range runs {
+		if !expired {
+			select {
+			case <-r.done:
+			case <-timer.C:
+				expired = true
+			}
+		}
+		select {
+		case <-r.done:
+			*r.h = *r.clone
+		default:
+			ph := freshHist(r.h, c.cell.epoll)
+			ph.fail(false, "c10-order", "watchdog: the history did not finish within %v — a client call into the code under test does not return", budget)
+			*r.h = *ph
+		}
+	}
 	return nil
+}
+
+// guarded: run f (a Close of the code under test) but do not wait for it forever
+func (h *hist) guarded(what string, f func()) {
+	done := make(chan struct{})
+	go func() { defer close(done); f() }()
+	select {
+	case <-done:
+	case <-time.After(5 * time.Second):
+		h.fail(false, "c10-client-callback", "%s did not return within 5s", what)
+	}
 }
 
 func sizeClass(n int) string {
@@ -1798,6 +1847,9 @@ func runCase(e *lp.Exec, lines []string) {
 		return
 	}
 	for attempt := 0; ; attempt++ {
+		if degraded {
+			attempt = maxAttempts // a failing input is already on record: no re-runs, short time-outs (see below)
+		}
 		if err := c.runOnce(); err != nil {
 			for _, l := range lines {
 				e.P("> %s", l)
@@ -1817,7 +1869,7 @@ func runCase(e *lp.Exec, lines []string) {
 		}
 		// timing-type failures (timeouts on a loaded machine) are re-run before they are reported;
 		// content failures (order, foreign bytes, wrong close, callback count) are real events and reported at once
-		if !soft || hard || attempt >= 2 {
+		if !soft || hard || attempt >= maxAttempts {
 			break
 		}
 		e.Count("retries", "case")
@@ -1900,6 +1952,14 @@ func runCase(e *lp.Exec, lines []string) {
 	for _, h := range c.order {
 		for _, f := range h.fails {
 			e.P("! %s", f)
+			if !degraded && !strings.Contains(f, " class=") { // classified reports are the recorded known findings
+				// On a tree that fails, the remaining cases of this process are still run and reported, but a stall
+				// no longer costs 3 x 25 s per case: the verdict is in, the rest is detail.
+				degraded = true
+				if ioTimeout > 5*time.Second {
+					ioTimeout = 5 * time.Second
+				}
+			}
 		}
 	}
 	e.Key(key.String(), nontrivial)
@@ -1934,6 +1994,23 @@ func (quietLogger) Error(f string, v ...interface{}) {
 func exec(e *lp.Exec) {
 	logging.SetLogger(quietLogger{})
 	defer stopServers()
+	var lines []string
+	ncases := 0
+	for e.In.Scan() {
+		line := e.In.Text()
+		if strings.TrimSpace(line) == "" {
+			continue
+		}
+		if strings.HasPrefix(line, "C ") {
+			ncases++
+		}
+		lines = append(lines, line)
+	}
+	if ncases <= 1 && ioTimeout > 8*time.Second {
+		// a single case is a replay, a shrinking step or a known-finding witness: short time-outs, one re-run
+		ioTimeout = 8 * time.Second
+		maxAttempts = 1
+	}
 	var cur []string
 	flush := func() {
 		if len(cur) > 0 {
@@ -1941,11 +2018,7 @@ func exec(e *lp.Exec) {
 			cur = nil
 		}
 	}
-	for e.In.Scan() {
-		line := e.In.Text()
-		if strings.TrimSpace(line) == "" {
-			continue
-		}
+	for _, line := range lines {
 		if strings.HasPrefix(line, "C ") {
 			flush()
 		}
